@@ -2,6 +2,7 @@ package vkit
 
 import (
 	"runtime"
+	"strings"
 	"time"
 )
 
@@ -63,4 +64,79 @@ func StallOracle(fn func() *Outcome, probe func() (progress int64, outstandingAn
 			}
 		}
 	}
+}
+
+// blockedStates are goroutine states in which a goroutine waits for another
+// goroutine (not for time, the OS or the scheduler).
+var blockedStates = []string{"chan receive", "chan send", "select", "sync.Cond.Wait", "sync.Mutex.Lock", "sync.RWMutex.RLock", "sync.RWMutex.Lock", "semacquire", "sync.WaitGroup.Wait"}
+
+// DeadlockEvidence inspects a dump of all goroutines (runtime.Stack).  The
+// goroutines whose stacks mention one of pkgs are "the program".  It reports
+// true if none of them can make progress on its own - every one is waiting for
+// another goroutine, none is runnable, sleeping, in a system call or waiting
+// for I/O - and at least one with a frame of tested (the code under test) has
+// been waiting for a minute or more.  The goroutine taking the dump (state
+// "running") is not counted.
+func DeadlockEvidence(dump string, tested string, pkgs ...string) (bool, string) {
+	var stuck []string
+	longTested := false
+	for _, g := range strings.Split(dump, "\n\n") {
+		if !strings.HasPrefix(g, "goroutine ") {
+			continue
+		}
+		rel := strings.Contains(g, tested)
+		for _, p := range pkgs {
+			rel = rel || strings.Contains(g, p)
+		}
+		if !rel {
+			continue
+		}
+		head := g
+		if i := strings.IndexByte(g, '\n'); i >= 0 {
+			head = g[:i]
+		}
+		lb, rb := strings.IndexByte(head, '['), strings.LastIndexByte(head, ']')
+		if lb < 0 || rb < lb {
+			return false, ""
+		}
+		state := head[lb+1 : rb]
+		if state == "running" {
+			continue
+		}
+		blocked := false
+		for _, b := range blockedStates {
+			if strings.HasPrefix(state, b) {
+				blocked = true
+			}
+		}
+		if !blocked {
+			return false, "" // something can still move
+		}
+		if strings.Contains(g, tested) && strings.Contains(state, " minutes") {
+			longTested = true
+		}
+		stuck = append(stuck, head)
+	}
+	if !longTested {
+		return false, ""
+	}
+	return true, strings.Join(stuck, "\n")
+}
+
+// Hang runs fn under a watchdog of d (at least a minute is waited in total
+// before judging).  It returns whether fn failed to finish, and if so whether
+// the goroutine dump is evidence of a deadlock (see DeadlockEvidence).
+func Hang(d time.Duration, fn func(), tested string, pkgs ...string) (timedOut, deadlock bool, dump string) {
+	start := time.Now()
+	timedOut, dump = Watchdog(d, fn)
+	if !timedOut {
+		return false, false, ""
+	}
+	if rest := 65*time.Second - time.Since(start); rest > 0 {
+		time.Sleep(rest)
+	}
+	buf := make([]byte, 1<<20)
+	dump = string(buf[:runtime.Stack(buf, true)])
+	deadlock, _ = DeadlockEvidence(dump, tested, pkgs...)
+	return true, deadlock, dump
 }
